@@ -449,52 +449,37 @@ Qed.
 Lemma removelast_In' : forall A (l : list A) x, In x (removelast l) -> In x l.
 Proof. exact removelast_In. Qed.
 
-Lemma defer_u : forall T BS I0 exp l l' L'' accs acc ex s e tr x a Mdyn Mb Lf lm exp',
+(* the step in its general form: the stack may carry further scopes [Ks] on top of the levels (open comprehensions,
+   Stage3Unused.v); [r] is what PySem says about the read, and [Himp] what follows when that is an import binding *)
+Lemma defer_u_gen : forall T BS I0 exp l l' L'' accs acc ex s tr x a Mdyn Lf lm exp' Ks tp r,
   StI exp (l :: l' :: L'') (acc :: accs) ex (er s) -> ExOK (l :: l' :: L'') ex -> CtxI exp (l :: l' :: L'') ->
-  EnvI (l :: l' :: L'') e (acc :: map l_B (l' :: L'')) ->
   (forall i, In i ex -> i < next_id s) ->
   l :: l' :: L'' = Lf ++ [lm] -> T = l_b lm ->
-  UI T BS I0 exp s Mdyn tr -> EnvU e Mb -> fdyn Mb = rev BS ++ others I0 ->
-  Once BS (others I0) -> Own1 Lf lm (rev BS ++ others I0) -> (forall y, In y (l_P lm) -> In y I0) ->
+  UI T BS I0 exp s Mdyn tr ->
+  top (stack_of (l :: l' :: L'') ++ Ks) = tp -> tp <> T -> In tp (stack_of (l :: l' :: L'') ++ Ks) ->
+  (forall j, In j Ks -> j < next_id s) ->
+  (forall li ii, r = Bound (BImp li ii) ->
+     lookup_b x (rev BS ++ others I0) = Some (BImp li ii) /\ (forall i, In i (stack_of Lf ++ Ks) -> ~ In x (exp i)) /\ ~ In x (l_P lm)) ->
   ext (next_id s) exp exp' ->
-  StI exp' (l :: l' :: L'') (acc :: accs) ex (er (defer_load s (stack_of (l :: l' :: L'')) (x :: a))) ->
-  UI T BS I0 exp' (defer_load s (stack_of (l :: l' :: L'')) (x :: a)) Mdyn (tr ++ [(lineno s, x, resolve x e)]).
+  StI exp' (l :: l' :: L'') (acc :: accs) ex (er (defer_load s (stack_of (l :: l' :: L'') ++ Ks) (x :: a))) ->
+  UI T BS I0 exp' (defer_load s (stack_of (l :: l' :: L'') ++ Ks) (x :: a)) Mdyn (tr ++ [(lineno s, x, r)]).
 Proof.
-  intros T BS I0 exp l l' L'' accs acc ex s e tr x a Mdyn Mb Lf lm exp' HS HX HC HE Hexlt HL HT HU HEU Hdyn HO HOwn HP Hext HS'.
-  set (L := l :: l' :: L'') in *. set (stk := stack_of L) in *. set (FB := rev BS ++ others I0) in *.
+  intros T BS I0 exp l l' L'' accs acc ex s tr x a Mdyn Lf lm exp' Ks tp r HS HX HC Hexlt HL HT HU Htop HtpT Htpin HKlt Himp Hext HS'.
+  set (L := l :: l' :: L'') in *. set (stk := stack_of L ++ Ks) in *. set (FB := rev BS ++ others I0) in *.
   pose proof (st_sinv _ _ _ _ _ HS) as HSe.
   assert (Hdef : forall d stk0 ln, In (d, stk0, ln) (deferred s) -> forall i, In i stk0 -> i < next_id s).
   { intros d stk0 ln Hin i Hi. apply (st_def _ _ _ _ _ HS _ _ _ Hin i Hi). }
   assert (HLf : Lf <> []). { intro E. subst Lf. cbn in HL. unfold L in HL. discriminate. }
-  assert (Hl_in : In l Lf). { destruct Lf as [|k r]. congruence. unfold L in HL. injection HL as <- _. left. reflexivity. }
-  assert (Hstk : stk = (l_as lm ++ [T]) ++ stack_of Lf). { unfold stk. rewrite HL, stack_of_snoc, HT. reflexivity. }
+  assert (Hstk : stk = (l_as lm ++ [T]) ++ (stack_of Lf ++ Ks)). { unfold stk. rewrite HL, stack_of_snoc, HT, <- app_assoc. reflexivity. }
   assert (HTlt : T < next_id s).
-  { apply (st_ids _ _ _ _ _ HS). fold L stk. rewrite Hstk. apply in_app_iff. left. apply in_app_iff. right. left. reflexivity. }
-  assert (Hltop : top stk = l_b l) by (unfold stk, L; apply stack_top).
-  assert (HlT : l_b l <> T).
-  { rewrite HT. intro E. pose proof (st_nodup _ _ _ _ _ HS) as Hnd. fold L in Hnd.
-    assert (Hlm : In lm (l' :: L'')).
-    { unfold L in HL. destruct Lf as [|k Lf']; cbn in HL. discriminate. injection HL as _ HL. rewrite HL.
-      apply in_app_iff. right. left. reflexivity. }
-    apply (b_distinct l (l' :: L'') lm Hnd Hlm). symmetry. exact E. }
+  { apply (st_ids _ _ _ _ _ HS). fold L. rewrite HL, stack_of_snoc, HT. apply in_app_iff. left. apply in_app_iff. right. left. reflexivity. }
+  assert (Hlt_post : forall i, In i (stack_of Lf ++ Ks) -> i < next_id s).
+  { intros i Hi. apply in_app_iff in Hi as [Hi|Hi]; [|apply HKlt; exact Hi].
+    apply (st_ids _ _ _ _ _ HS). fold L. rewrite HL, stack_of_snoc. apply in_app_iff. right. exact Hi. }
   (* the first needs-call *)
   pose proof (needs_marks s stk (x :: a)) as HM.
   destruct (needs_er s stk (x :: a)) as (F1 & _ & _). rewrite (needs_S (er s) stk x a HSe) in F1. cbn [fst] in F1.
   rewrite bound_er in F1.
-  (* what PySem's verdict says when the read is bound to an import *)
-  assert (Himp : forall li ii, resolve x e = Bound (BImp li ii) ->
-            lookup_b x FB = Some (BImp li ii) /\ (forall i, In i (stack_of Lf) -> ~ In x (exp i)) /\ ~ In x (l_P lm)).
-  { intros li ii Hr. rewrite (resolve_EnvI _ _ _ x HE) in Hr.
-    destruct (resolve_imp L e _ Mb x li ii HE HEU Hr) as [R1 R2]. rewrite Hdyn in R1. fold FB in R1.
-    assert (R2' : forall k, In k Lf -> ~ In x (l_P k ++ l_B k)).
-    { intros k Hk. apply R2. rewrite HL. rewrite removelast_app by discriminate. cbn. rewrite app_nil_r. exact Hk. }
-    split. exact R1. split.
-    - apply (fn_noexp exp Lf lm x). rewrite <- HL. exact HC. exact R2'.
-      apply (owns_fn Lf lm x). rewrite <- HL. apply (cx_own _ _ HC).
-      intros k Hk Hx. apply (R2' k Hk). apply in_app_iff. auto.
-      intro Hx. apply (HOwn x Hx li ii). exact R1.
-    - intro Hx. apply HP in Hx. apply final_import_in in R1. destruct (HO x li ii R1) as [_ Hn].
-      assert (lookup_b x (others I0) <> None) by (apply lookup_b_others; exact Hx). congruence. }
   unfold defer_load in *. fold stk in HS' |- *.
   destruct (needs s stk (x :: a)) as [b s1] eqn:En. cbn [fst snd] in *. subst b.
   destruct (bound s stk x) eqn:Eb; cbn [negb] in *.
@@ -504,10 +489,10 @@ Proof.
       destruct HM as (cs' & -> & _). exact Hdef.
     + intros li ii Hr. left. destruct (Himp li ii Hr) as (R1 & R2 & R3).
       (* not in a function scope, not in the initial namespaces: in the module's top scope, as a checker *)
-      assert (Hfn : forall j, In j (stack_of Lf) -> has (er s) j x = false).
+      assert (Hfn : forall j, In j (stack_of Lf ++ Ks) -> has (er s) j x = false).
       { intros j Hj. destruct (has (er s) j x) eqn:E; auto. exfalso. apply (R2 j Hj). apply (st_sub _ _ _ _ _ HS). exact E. }
       assert (HasT : has (er s) T x = true).
-      { rewrite <- bound_er in Eb. rewrite Hstk, !bound_app, bound_single in Eb.
+      { rewrite <- bound_er in Eb. rewrite Hstk in Eb. rewrite (bound_app _ (l_as lm ++ [T])), (bound_app _ (l_as lm)), bound_single in Eb.
         apply orb_true_iff in Eb as [Eb|Eb].
         - apply orb_true_iff in Eb as [Eb|Eb]; auto. exfalso. apply R3.
           assert (Hlm : In lm L) by (rewrite HL; apply in_app_iff; right; left; reflexivity).
@@ -523,7 +508,7 @@ Proof.
       assert (Epair : c_line (checker_at s c) = li /\ c_imp (checker_at s c) = ii).
       { destruct (u_stab _ _ _ _ _ _ _ HU x li ii R1) as [Hn|Hs]; rewrite Hm1 in *. discriminate. injection Hs as -> ->. auto. }
       rewrite Hstk, <- app_assoc in En. cbn [app] in En.
-      rewrite (needs_found s x a (l_as lm) T (stack_of Lf) c) in En.
+      rewrite (needs_found s x a (l_as lm) T (stack_of Lf ++ Ks) c) in En.
       * injection En as <-. destruct Epair as [<- <-]. apply Used_mark. exact Hclt.
       * intros j Hj. split. apply rootclosed_er. apply (sv_root _ HSe). apply dict_get_none_er. apply Hfn. exact Hj.
       * intros k v Hin. apply (u_top _ _ _ _ _ _ _ HU _ _ Hin).
@@ -533,18 +518,17 @@ Proof.
     assert (Hn1 : next_id s1 = next_id s) by (destruct HM as (cs' & -> & _); reflexivity).
     assert (Hsd1 : forall i, scope_dict s1 i = scope_dict s i) by (destruct HM as (cs' & -> & _); reflexivity).
     assert (Hd1 : deferred s1 = deferred s) by (destruct HM as (cs' & -> & _); reflexivity).
-    unfold clone_top in *. rewrite Hltop in *.
-    destruct (get_scope (scopes s1) (l_b l)) as [ck d] eqn:Eg.
-    assert (Ed : d = scope_dict s (l_b l)). { rewrite <- Hsd1. unfold scope_dict. rewrite Eg. reflexivity. }
+    unfold clone_top in *. rewrite Htop in *.
+    destruct (get_scope (scopes s1) tp) as [ck d] eqn:Eg.
+    assert (Ed : d = scope_dict s tp). { rewrite <- Hsd1. unfold scope_dict. rewrite Eg. reflexivity. }
     pose proof (scope_dict_new_gen s1 ck d) as Hsd2.
-    destruct (new_scope_fields s1 d) as (_ & _ & _ & _ & _ & _ & _).
     assert (Enew : fst (new_scope s1 ck d) = next_id s1) by reflexivity.
     destruct (new_scope s1 ck d) as [j s2] eqn:E2. cbn [fst snd] in *. subst j.
     assert (E2' : s2 = snd (new_scope s1 ck d)) by (rewrite E2; reflexivity).
     assert (Hd2 : deferred s2 = deferred s) by (rewrite E2'; exact Hd1).
     set (j := next_id s1) in *. set (stk' := removelast stk ++ [j]) in *.
     assert (Hplain_d : forall key v, In (key, v) d -> v = Plain).
-    { intros key v Hin. rewrite Ed in Hin. apply (u_plain _ _ _ _ _ _ _ HU (l_b l) key v HlT Hin). }
+    { intros key v Hin. rewrite Ed in Hin. apply (u_plain _ _ _ _ _ _ _ HU tp key v HtpT Hin). }
     assert (HjT : j <> T) by (unfold j; lia).
     assert (U2 : UI T BS I0 exp' s2 Mdyn tr).
     { rewrite E2'. apply UI_newscope; auto. eapply UI_ext; [exact Hext| |eapply UI_marks; [exact HM|exact HU]].
@@ -553,20 +537,19 @@ Proof.
     + apply (UI_same T BS I0 exp' s2); try reflexivity. cbn [deferred with_deferred]. intros d0 H0. apply in_app_iff. auto. exact U2.
     + intros li ii Hr. right. destruct (Himp li ii Hr) as (R1 & R2 & R3). split. exact R1.
       exists a, stk', (lineno s2). split. cbn [deferred with_deferred]. apply in_app_iff. right. left. reflexivity.
-      exists (l_as lm), (removelast (stack_of Lf) ++ [j]). split.
+      exists (l_as lm), (removelast (stack_of Lf ++ Ks) ++ [j]). split.
       * unfold stk'. rewrite Hstk. rewrite removelast_app.
         rewrite <- !app_assoc. reflexivity.
-        intro E. apply HLf. destruct Lf as [|k r]; auto. exfalso. rewrite (stack_of_cons k r) in E.
+        intro E. apply HLf. apply app_eq_nil in E as [E _]. destruct Lf as [|k r0]; auto. exfalso. rewrite (stack_of_cons k r0) in E.
         apply app_eq_nil in E as [_ E]. apply app_eq_nil in E as [_ E]. discriminate.
       * intros i Hi. apply in_app_iff in Hi as [Hi|[<-|[]]].
-        -- apply removelast_In in Hi. rewrite Hext. apply R2. exact Hi.
-           assert (In i stk) by (rewrite Hstk; apply in_app_iff; auto). apply (st_ids _ _ _ _ _ HS). exact H.
+        -- apply removelast_In in Hi. rewrite Hext. apply R2. exact Hi. apply Hlt_post. exact Hi.
         -- (* the copy: a closed scope that holds what the top scope held at the read *)
            intro Hx.
            assert (Hlt : j < next_id (er (with_deferred s2 (deferred s2 ++ [(x :: a, stk', lineno s2)])))).
            { cbn [next_id er with_deferred]. rewrite E2'. cbn. unfold j. lia. }
            assert (Hnb : ~ In j (map l_b L)).
-           { intro Hb. apply in_map_iff in Hb as (k & Ek & Hk). assert (In (l_b k) stk) by (apply in_stack_b; exact Hk).
+           { intro Hb. apply in_map_iff in Hb as (k & Ek & Hk). assert (In (l_b k) (stack_of L)) by (apply in_stack_b; exact Hk).
              apply (st_ids _ _ _ _ _ HS) in H. cbn [next_id er] in H. unfold j in Ek. lia. }
            assert (Hne : ~ In j ex). { intro He. apply Hexlt in He. unfold j in He. lia. }
            apply (st_eq _ _ _ _ _ HS' j Hlt Hnb Hne x) in Hx.
@@ -574,11 +557,49 @@ Proof.
            change (scope_dict (with_deferred s2 (deferred s2 ++ [(x :: a, stk', lineno s2)])) j) with (scope_dict s2 j) in Hx.
            rewrite Hsd2 in Hx by exact Hf1. unfold j in Hx. rewrite Nat.eqb_refl in Hx. rewrite Ed in Hx. rewrite <- has_er in Hx.
            rewrite <- bound_er in Eb. unfold bound in Eb.
-           assert (Hin : In (l_b l) stk). { rewrite <- Hltop. unfold stk, L. rewrite stack_of_cons. unfold top.
-             rewrite app_assoc, last_last. apply in_app_iff. right. left. reflexivity. }
            assert (existsb (fun i => dict_has (scope_dict (er s) i) [x]) stk = true).
-           { apply existsb_exists. exists (l_b l). split; auto. }
+           { apply existsb_exists. exists tp. split; auto. }
            congruence.
+Qed.
+
+Lemma defer_u : forall T BS I0 exp l l' L'' accs acc ex s e tr x a Mdyn Mb Lf lm exp',
+  StI exp (l :: l' :: L'') (acc :: accs) ex (er s) -> ExOK (l :: l' :: L'') ex -> CtxI exp (l :: l' :: L'') ->
+  EnvI (l :: l' :: L'') e (acc :: map l_B (l' :: L'')) ->
+  (forall i, In i ex -> i < next_id s) ->
+  l :: l' :: L'' = Lf ++ [lm] -> T = l_b lm ->
+  UI T BS I0 exp s Mdyn tr -> EnvU e Mb -> fdyn Mb = rev BS ++ others I0 ->
+  Once BS (others I0) -> Own1 Lf lm (rev BS ++ others I0) -> (forall y, In y (l_P lm) -> In y I0) ->
+  ext (next_id s) exp exp' ->
+  StI exp' (l :: l' :: L'') (acc :: accs) ex (er (defer_load s (stack_of (l :: l' :: L'')) (x :: a))) ->
+  UI T BS I0 exp' (defer_load s (stack_of (l :: l' :: L'')) (x :: a)) Mdyn (tr ++ [(lineno s, x, resolve x e)]).
+Proof.
+  intros T BS I0 exp l l' L'' accs acc ex s e tr x a Mdyn Mb Lf lm exp' HS HX HC HE Hexlt HL HT HU HEU Hdyn HO HOwn HP Hext HS'.
+  set (L := l :: l' :: L'') in *. set (FB := rev BS ++ others I0) in *.
+  assert (HLf : Lf <> []). { intro E. subst Lf. cbn in HL. unfold L in HL. discriminate. }
+  assert (HlT : l_b l <> T).
+  { rewrite HT. intro E. pose proof (st_nodup _ _ _ _ _ HS) as Hnd. fold L in Hnd.
+    assert (Hlm : In lm (l' :: L'')).
+    { unfold L in HL. destruct Lf as [|k Lf']; cbn in HL. discriminate. injection HL as _ HL. rewrite HL.
+      apply in_app_iff. right. left. reflexivity. }
+    apply (b_distinct l (l' :: L'') lm Hnd Hlm). symmetry. exact E. }
+  assert (Himp : forall li ii, resolve x e = Bound (BImp li ii) ->
+            lookup_b x FB = Some (BImp li ii) /\ (forall i, In i (stack_of Lf) -> ~ In x (exp i)) /\ ~ In x (l_P lm)).
+  { intros li ii Hr. rewrite (resolve_EnvI _ _ _ x HE) in Hr.
+    destruct (resolve_imp L e _ Mb x li ii HE HEU Hr) as [R1 R2]. rewrite Hdyn in R1. fold FB in R1.
+    assert (R2' : forall k, In k Lf -> ~ In x (l_P k ++ l_B k)).
+    { intros k Hk. apply R2. rewrite HL. rewrite removelast_app by discriminate. cbn. rewrite app_nil_r. exact Hk. }
+    split. exact R1. split.
+    - apply (fn_noexp exp Lf lm x). rewrite <- HL. exact HC. exact R2'.
+      apply (owns_fn Lf lm x). rewrite <- HL. apply (cx_own _ _ HC).
+      intros k Hk Hx. apply (R2' k Hk). apply in_app_iff. auto.
+      intro Hx. apply (HOwn x Hx li ii). exact R1.
+    - intro Hx. apply HP in Hx. apply final_import_in in R1. destruct (HO x li ii R1) as [_ Hn].
+      assert (lookup_b x (others I0) <> None) by (apply lookup_b_others; exact Hx). congruence. }
+  pose proof (defer_u_gen T BS I0 exp l l' L'' accs acc ex s tr x a Mdyn Lf lm exp' [] (l_b l) (resolve x e) HS HX HC Hexlt HL HT HU) as G.
+  rewrite !app_nil_r in G. apply G; auto.
+  - apply stack_top.
+  - fold L. unfold L. rewrite stack_of_cons, app_assoc. apply in_app_iff. right. left. reflexivity.
+  - intros j [].
 Qed.
 
 (* ---------- stores ---------- *)
